@@ -182,9 +182,11 @@ Definition new_dd_block (st : mst) : mst :=
   let n := nddsn st in
   let last := (length (m_bdirty st) - 1)%nat in
   if m_cache st then
-    (* nothing that matters is written now: both blocks are flushed by HTPsync *)
+    (* header and NIL DDs of the new block are written now; the link field of the previously last header
+       waits for HTPsync (both blocks are marked dirty) *)
     mkst (m_ndds st) (m_slots st ++ repeat nil_dd n) (upd (m_bdirty st) last true ++ [true])
-         (m_dhdr st ++ [None]) (m_dslots st ++ repeat None n) (m_tree st) (m_null st) (m_maxref st) (m_cache st) true
+         (m_dhdr st ++ [Some false]) (m_dslots st ++ repeat (Some nil_dd) n) (m_tree st) (m_null st) (m_maxref st)
+         (m_cache st) true
   else
     (* header of the new block, its NIL DDs, and the link field of the previously last header *)
     mkst (m_ndds st) (m_slots st ++ repeat nil_dd n) (m_bdirty st ++ [false])
@@ -419,7 +421,10 @@ Definition hdupdd (st : mst) (nt nr ot or_ : Z) : mst * res :=
   match htpselect st ot or_ with
   | None => (st, RFail)
   | Some po =>
-      match htpcreate st nt nr with
+      (* a special element is duplicated as a special element *)
+      let nt' := if is_special_dd (slot st po) && (SPECIALTAG nt =? 0) then MKSPECIALTAG nt else nt in
+      if is_special_dd (slot st po) && (SPECIALTAG nt =? 0) && (nt' =? DFTAG_NULL) then (st, RFail) else
+      match htpcreate st nt' nr with
       | (st1, None) => (st1, RFail)
       | (st1, Some pn) => (htpupdate st1 pn (d_off (slot st1 po)) (d_len (slot st1 po)), ROk)
       end
